@@ -10,6 +10,7 @@
 -/
 import Props.Lemmas.C05_Loops
 import Props.Lemmas.C07_Save
+import Props.Lemmas.C04_ExecSet
 
 namespace Pypyr.C04
 open Pypyr Pypyr.Flow Pypyr.C05 Pypyr.C07
@@ -57,6 +58,49 @@ example : fmtAsBool 100 [("a", .str "TRUE"), ("n", .int 0)] (.str "{a}") = .ok t
     fmtAsBool 100 [("a", .str "TRUE"), ("n", .int 0)] (.str "yes") = .ok false ∧
     fmtAsBool 100 [] (.sic "false") = .ok true ∧
     fmtAsBool 100 [("n", .int 0)] (.py (.binop .eq (.name "n") (.const (.int 0)))) = .ok true := by
+  decide +kernel
+
+/-- **The dispatch of `get_formatted_as_type(value, out_type=bool)`, as a decision table** on the
+    kind of the raw value (the three branches of the Python function, in its order):
+
+    1. `isinstance(value, SpecialTagDirective)` (`!sic`, `!py`, `!jsonify`): the tag is evaluated and
+       the result goes through `cast_to_type(result, bool)` = `bool(result)`: **plain truthiness** —
+       a `!py` expression yielding the string `'false'` is TRUE;
+    2. `isinstance(value, str)`: the string is formatted; an error propagates; a result that already
+       is a bool is returned as is; every other result goes through `cast_to_bool` (`castToBool`,
+       `castToBool_spec`: a string is true iff its lower-cased text is `true`, `1` or `1.0`,
+       anything else by truthiness);
+    3. anything else: `bool(value)`, plain truthiness, no formatting. -/
+theorem fmtAsBool_dispatch (fuel : Nat) (ctx : Ctx) (v : Val) :
+    (isSpecialTag v = true → fmtAsBool fuel ctx v = (fmtVal fuel ctx v).map Val.truthy) ∧
+    (∀ t, v = .str t →
+      (∀ e, fmtVal fuel ctx v = .error e → fmtAsBool fuel ctx v = .error e) ∧
+      (∀ b, fmtVal fuel ctx v = .ok (.bool b) → fmtAsBool fuel ctx v = .ok b) ∧
+      (∀ r, fmtVal fuel ctx v = .ok r → (∀ b, r ≠ .bool b) → fmtAsBool fuel ctx v = .ok (castToBool r))) ∧
+    (isSpecialTag v = false → (∀ t, v ≠ .str t) → fmtAsBool fuel ctx v = .ok v.truthy) := by
+  refine ⟨fun h => ?_, fun t ht => ?_, fun h hs => ?_⟩
+  · unfold fmtAsBool; rw [h]; rfl
+  · subst ht
+    refine ⟨fun e he => ?_, fun b hb => ?_, fun r hr hnb => ?_⟩
+    · have he' : fmtIter fuel ctx false (.str t) = .error e := he
+      simp [fmtAsBool, isSpecialTag, he']
+    · have hb' : fmtIter fuel ctx false (.str t) = .ok (.bool b) := hb
+      simp [fmtAsBool, isSpecialTag, hb']
+    · have hr' : fmtIter fuel ctx false (.str t) = .ok r := hr
+      cases r <;> first | exact absurd rfl (hnb _) | simp [fmtAsBool, isSpecialTag, hr']
+  · cases v <;> first | exact absurd rfl (hs _) | rfl | cases h
+
+/-- the three rows on concrete values: a `!py` expression yielding the string `'false'` is true
+    (row 1), the format expression `'{a}'` resolving to the same string is false, to `'1.0'` true, to
+    the empty list false, to the bool `False` false (row 2), and the raw list `['false']` is true
+    (row 3). -/
+example :
+    fmtAsBool 100 [] (.py (.const (.str "false"))) = .ok true ∧
+    fmtAsBool 100 [("a", .str "false")] (.str "{a}") = .ok false ∧
+    fmtAsBool 100 [("a", .str "1.0")] (.str "{a}") = .ok true ∧
+    fmtAsBool 100 [("a", .list [])] (.str "{a}") = .ok false ∧
+    fmtAsBool 100 [("a", .bool false)] (.str "{a}") = .ok false ∧
+    fmtAsBool 100 [] (.list [.str "false"]) = .ok true := by
   decide +kernel
 
 /-! ## run and skip decide, at the moment of each execution -/
@@ -172,6 +216,126 @@ theorem decision_changes_between_iterations (d : StepDef) (hr : d.run = .str "{g
                       trace := (setI x s).trace ++ [markEvent] } (ctx_get_set_self _ _ _)
   exact ⟨t', e1, e2, e3⟩
 
+/-- **The execution set.** A step with arbitrary `run` / `skip` expressions under a foreach over the
+    items `xs`, around a body (`noteThen g`) that leaves one event per execution and then changes the
+    context in any way `g` whatsoever — in particular the keys `run` and `skip` depend on. Thread
+    the state through the items by recursion (`condStates d g xs s`: each item `x` paired with the
+    state `sₓ` in which its iteration starts — the previous iterations done, `i := x`; an iteration
+    transforms the state by `g` iff it executes, `condItem`). If at each of these states the
+    decision can be taken (`decides`: `run` formats, and `skip` formats whenever `run` is true), then
+    the loop completes normally in the threaded state and **the trace it appended is exactly the
+    events of those items `x` for which `run` evaluates true and `skip` evaluates false at `sₓ`**
+    (`willRun d sₓ`, `willRun_iff`), in order:
+
+        trace = s.trace ++ [ event x | (x, sₓ) ← condStates d g xs s, run(sₓ) ∧ ¬skip(sₓ) ].
+
+    Any list, any frame, any start state. (`swallow` plays no part: this body raises no error. When
+    the decision can NOT be taken at some item: `foreach_execution_set_error`.) -/
+theorem foreach_execution_set (d : StepDef) (g : Ctx → Ctx) (fr : Frame) (xs : List Val) (s : St)
+    (hev : ∀ p, p ∈ condStates d g xs s → decides d p.2 = true) :
+    foreachItems fr (fun fr' => runConditional d (noteThen g fr')) xs s = (condFold d g xs s, .ok) ∧
+    (foreachItems fr (fun fr' => runConditional d (noteThen g fr')) xs s).1.trace =
+      s.trace ++ (condStates d g xs s).filterMap
+        (fun p => if willRun d p.2 then some (noteEvent (some p.1) (some p.1)) else none) := by
+  obtain ⟨hall, hfold⟩ := cond_allOk d g fr xs s hev
+  have e := foreachItems_allOk fr _ xs s hall
+  rw [hfold] at e
+  refine ⟨e, ?_⟩
+  rw [e]
+  exact condFold_trace d g xs s
+
+/-- the vocabulary of `foreach_execution_set`, spelled out: the state sequence is defined by
+    recursion on the items — first state: `i` bound to the first item; next state: the previous one
+    transformed by the body (event appended, `g` applied) iff `run ∧ ¬skip` held on it, then `i`
+    re-bound —, and `willRun` is literally "`run` evaluates true and `skip` evaluates false". -/
+theorem execution_states_spec (d : StepDef) (g : Ctx → Ctx) (x : Val) (rest : List Val) (s : St) :
+    condStates d g [] s = [] ∧
+    condStates d g (x :: rest) s =
+      (x, { s with ctx := Ctx.set s.ctx "i" x }) ::
+        condStates d g rest
+          (if willRun d { s with ctx := Ctx.set s.ctx "i" x } then
+            { s with ctx := g (Ctx.set s.ctx "i" x), trace := s.trace ++ [noteEvent (some x) (some x)] }
+           else { s with ctx := Ctx.set s.ctx "i" x }) ∧
+    (∀ s0, willRun d s0 = true ↔ fmtB s0 d.run = .ok true ∧ fmtB s0 d.skip = .ok false) ∧
+    (∀ s0, decides d s0 = true ↔
+      ∃ r, fmtB s0 d.run = .ok r ∧ (r = true → ∃ k, fmtB s0 d.skip = .ok k)) := by
+  refine ⟨rfl, rfl, willRun_iff d, fun s0 => ?_⟩
+  unfold decides
+  cases fmtB s0 d.run with
+  | error e => simp
+  | ok r =>
+    cases r with
+    | false => simp
+    | true => cases fmtB s0 d.skip <;> simp
+
+/-- **… and when `run` or `skip` cannot be evaluated**: with `xs = pre ++ x :: post`, the decision
+    taken at every item of `pre`, and at `x` — on the state `sₓ` reached then — `run` failing to
+    format, or `run` true and `skip` failing to format, with error `e`: the loop ends right there
+    with `e` raised on `sₓ`; the trace holds exactly the events of the executions that took place
+    among `pre`; the body ran neither for `x` nor for anything of `post`. -/
+theorem foreach_execution_set_error (d : StepDef) (g : Ctx → Ctx) (fr : Frame) (pre post : List Val) (x : Val)
+    (s : St) (e : Exc)
+    (hev : ∀ p, p ∈ condStates d g pre s → decides d p.2 = true)
+    (herr : fmtB (setI x (condFold d g pre s)) d.run = .error e ∨
+      (fmtB (setI x (condFold d g pre s)) d.run = .ok true ∧
+       fmtB (setI x (condFold d g pre s)) d.skip = .error e)) :
+    foreachItems fr (fun fr' => runConditional d (noteThen g fr')) (pre ++ x :: post) s =
+      raiseExc (setI x (condFold d g pre s)) e ∧
+    (foreachItems fr (fun fr' => runConditional d (noteThen g fr')) (pre ++ x :: post) s).1.trace =
+      s.trace ++ (condStates d g pre s).filterMap
+        (fun p => if willRun d p.2 then some (noteEvent (some p.1) (some p.1)) else none) := by
+  obtain ⟨hall, hfold⟩ := cond_allOk d g fr pre s hev
+  have hde : decisionError d (setI x (condFold d g pre s)) = some e := by
+    unfold decisionError
+    rcases herr with h | ⟨h1, h2⟩
+    · rw [h]
+    · rw [h1]; simp only []; rw [h2]
+  have hx := itemOut_cond_error d g fr x (condFold d g pre s) e hde
+  have e1 : foreachItems fr (fun fr' => runConditional d (noteThen g fr')) (pre ++ x :: post) s =
+      raiseExc (setI x (condFold d g pre s)) e := by
+    rw [foreachItems_append fr _ _ pre s hall, hfold,
+        foreachItems_cons_of_nonok fr _ x post _ (by rw [hx]; simp [raiseExc, raiseNew]), hx]
+  refine ⟨e1, ?_⟩
+  rw [e1]
+  show (condFold d g pre s).trace = _
+  exact condFold_trace d g pre s
+
+/-- `run: '{go}'`, `skip: !py i == 2`. -/
+def gatedStep : StepDef :=
+  { name := some "x", run := .str "{go}", skip := .py (.binop .eq (.name "i") (.const (.int 2))) }
+
+/-- a body effect that switches `go` off when it executes for item 3. -/
+def offAt3 : Ctx → Ctx := fun c =>
+  if Ctx.get? c "i" = some (.int 3) then Ctx.set c "go" (.bool false) else c
+
+/-- the hypothesis of `foreach_execution_set` holds on a concrete loop over `[1, 2, 3, 4]` whose
+    decisions change with the state: item 1 executes, item 2 is skipped (`skip` true), item 3
+    executes and switches `go` off, item 4 does not run (`run` false by then) — the execution set
+    is `{1, 3}`. -/
+example :
+    let s : St := { ctx := [("go", .bool true)] }
+    (∀ p, p ∈ condStates gatedStep offAt3 [.int 1, .int 2, .int 3, .int 4] s → decides gatedStep p.2 = true) ∧
+    (foreachItems {} (fun fr' => runConditional gatedStep (noteThen offAt3 fr')) [.int 1, .int 2, .int 3, .int 4] s).1.trace.map
+      (·.i) = [some (.int 1), some (.int 3)] ∧
+    (condStates gatedStep offAt3 [.int 1, .int 2, .int 3, .int 4] s).map (fun p => willRun gatedStep p.2) =
+      [true, false, true, false] := by
+  decide +kernel
+
+/-- the hypotheses of `foreach_execution_set_error` on a concrete loop: `run: '{go}'` and a body that
+    deletes `go` — item 1 executes, at item 2 `run` cannot be formatted: the loop ends with
+    KeyNotInContextError, one event in the trace, item 3 never visited. -/
+example :
+    let s : St := { ctx := [("go", .bool true)] }
+    let d : StepDef := { name := some "x", run := .str "{go}" }
+    let g : Ctx → Ctx := fun c => Ctx.erase c "go"
+    (∀ p, p ∈ condStates d g [.int 1] s → decides d p.2 = true) ∧
+    fmtB (setI (.int 2) (condFold d g [.int 1] s)) d.run = .error (keyNotInContext "go") ∧
+    (foreachItems {} (fun fr' => runConditional d (noteThen g fr')) ([.int 1] ++ .int 2 :: [.int 3]) s).2 =
+      .err ⟨0, "pypyr.errors.KeyNotInContextError", "go not found in the pypyr context."⟩ false ∧
+    (foreachItems {} (fun fr' => runConditional d (noteThen g fr')) ([.int 1] ++ .int 2 :: [.int 3]) s).1.trace.map
+      (·.i) = [some (.int 1)] := by
+  decide +kernel
+
 /-! ## swallow -/
 
 /-- **swallow true**: an error raised by the body is suppressed — `swallow` being evaluated
@@ -180,21 +344,22 @@ theorem decision_changes_between_iterations (d : StepDef) (hr : d.run = .str "{g
 theorem swallow_true_suppresses (d : StepDef) (inner : Body) (s s1 s2 : St) (e : ExcV)
     (hrun : fmtB s d.run = .ok true) (hskip : fmtB s d.skip = .ok false)
     (hi : inner s = (s1, .err e false))
-    (hsw : fmtB s1 d.swallow = .ok true) (hsave : saveError d s1 e true = (s2, .ok)) :
+    (hsw : fmtB s1 d.swallow = .ok true) (hsave : saveError d (logEscape d s1 e false) e true = (s2, .ok)) :
     runConditional d inner s = (s2, .ok) ∧
     ∃ ce, customError d s1 = .ok ce ∧ runErrorsOf s2 = runErrorsOf s1 ++ [entry d e true ce] := by
   constructor
   · rw [body_runs_iff d inner s true false hrun (fun _ => hskip), hi]
-    simp [swallowWrap, hsw, hsave]
-  · obtain ⟨ce, hc, hs2⟩ := saveError_ok d s1 s2 e true hsave
-    exact ⟨ce, hc, by rw [hs2]; exact runErrorsOf_set _ _ _⟩
+    simp [swallowWrap, fmtB_logEscape, hsw, hsave]
+  · obtain ⟨ce, hc, hs2⟩ := saveError_ok d _ s2 e true hsave
+    rw [customError_logEscape] at hc
+    exact ⟨ce, hc, by rw [hs2, runErrorsOf_set, runErrorsOf_logEscape]⟩
 
 /-- … so a foreach goes on with the next item from the state after recording, -/
 theorem swallow_true_foreach_continues (d : StepDef) (fr : Frame) (inner : Frame → Body) (x : Val)
     (rest : List Val) (s s1 s2 : St) (e : ExcV)
     (hrun : fmtB (setI x s) d.run = .ok true) (hskip : fmtB (setI x s) d.skip = .ok false)
     (hi : inner { fr with forI := some x } (setI x s) = (s1, .err e false))
-    (hsw : fmtB s1 d.swallow = .ok true) (hsave : saveError d s1 e true = (s2, .ok)) :
+    (hsw : fmtB s1 d.swallow = .ok true) (hsave : saveError d (logEscape d s1 e false) e true = (s2, .ok)) :
     foreachItems fr (fun fr' => runConditional d (inner fr')) (x :: rest) s =
       foreachItems fr (fun fr' => runConditional d (inner fr')) rest s2 := by
   have h := (swallow_true_suppresses d _ _ s1 s2 e hrun hskip hi hsw hsave).1
@@ -205,7 +370,7 @@ theorem swallow_true_while_continues (d : StepDef) (cfg : WhileCfg) (fr : Frame)
     (max : Option Nat) (sleep : Num) (eom : Bool) (fuel k : Nat) (s s1 s2 : St) (e : ExcV)
     (hrun : fmtB (setW k s) d.run = .ok true) (hskip : fmtB (setW k s) d.skip = .ok false)
     (hi : inner { fr with whileC := some k } (setW k s) = (s1, .err e false))
-    (hsw : fmtB s1 d.swallow = .ok true) (hsave : saveError d s1 e true = (s2, .ok)) :
+    (hsw : fmtB s1 d.swallow = .ok true) (hsave : saveError d (logEscape d s1 e false) e true = (s2, .ok)) :
     whileIter cfg fr (fun fr' => runConditional d (inner fr')) max sleep eom (fuel + 1) k s =
       whileAfter cfg fr (fun fr' => runConditional d (inner fr')) max sleep eom fuel k s2 := by
   have h := (swallow_true_suppresses d _ _ s1 s2 e hrun hskip hi hsw hsave).1
@@ -216,14 +381,15 @@ theorem swallow_true_while_continues (d : StepDef) (cfg : WhileCfg) (fr : Frame)
 theorem swallow_false_propagates (d : StepDef) (inner : Body) (s s1 s2 : St) (e : ExcV)
     (hrun : fmtB s d.run = .ok true) (hskip : fmtB s d.skip = .ok false)
     (hi : inner s = (s1, .err e false))
-    (hsw : fmtB s1 d.swallow = .ok false) (hsave : saveError d s1 e false = (s2, .ok)) :
+    (hsw : fmtB s1 d.swallow = .ok false) (hsave : saveError d (logEscape d s1 e false) e false = (s2, .ok)) :
     runConditional d inner s = (s2, .err e false) ∧
     ∃ ce, customError d s1 = .ok ce ∧ runErrorsOf s2 = runErrorsOf s1 ++ [entry d e false ce] := by
   constructor
   · rw [body_runs_iff d inner s true false hrun (fun _ => hskip), hi]
-    simp [swallowWrap, hsw, hsave]
-  · obtain ⟨ce, hc, hs2⟩ := saveError_ok d s1 s2 e false hsave
-    exact ⟨ce, hc, by rw [hs2]; exact runErrorsOf_set _ _ _⟩
+    simp [swallowWrap, fmtB_logEscape, hsw, hsave]
+  · obtain ⟨ce, hc, hs2⟩ := saveError_ok d _ s2 e false hsave
+    rw [customError_logEscape] at hc
+    exact ⟨ce, hc, by rw [hs2, runErrorsOf_set, runErrorsOf_logEscape]⟩
 
 /-- … out of a foreach (no further item) and out of a while loop (no `stop` check, no sleep, no
     further iteration). -/
@@ -232,11 +398,11 @@ theorem swallow_false_ends_loops (d : StepDef) (cfg : WhileCfg) (fr : Frame) (in
     (s s1 s2 : St) (e : ExcV) :
     (fmtB (setI x s) d.run = .ok true → fmtB (setI x s) d.skip = .ok false →
      inner { fr with forI := some x } (setI x s) = (s1, .err e false) →
-     fmtB s1 d.swallow = .ok false → saveError d s1 e false = (s2, .ok) →
+     fmtB s1 d.swallow = .ok false → saveError d (logEscape d s1 e false) e false = (s2, .ok) →
      foreachItems fr (fun fr' => runConditional d (inner fr')) (x :: rest) s = (s2, .err e false)) ∧
     (fmtB (setW k s) d.run = .ok true → fmtB (setW k s) d.skip = .ok false →
      inner { fr with whileC := some k } (setW k s) = (s1, .err e false) →
-     fmtB s1 d.swallow = .ok false → saveError d s1 e false = (s2, .ok) →
+     fmtB s1 d.swallow = .ok false → saveError d (logEscape d s1 e false) e false = (s2, .ok) →
      whileIter cfg fr (fun fr' => runConditional d (inner fr')) max sleep eom (fuel + 1) k s =
        (s2, .err e false)) := by
   constructor
@@ -278,9 +444,41 @@ theorem in_visible (d : StepDef) (body : Body) (callee : CofCfg → Body) (fuel 
 theorem description_only_words_the_notification (d : StepDef) (body : Body) (callee : CofCfg → Body)
     (fuel : Nat) (s : St) :
     runStepDescribed d body callee fuel s =
-      (match describe d (setIn d s) with
-       | some x => raiseExc (setIn d s) x
-       | none => runStepWith d body callee fuel s) := rfl
+      (match inFault d with
+       | some x => raiseExc s x
+       | none =>
+         match describe d (setIn d s) with
+         | some x => raiseExc (setIn d s) x
+         | none => runStepWith d body callee fuel s) := rfl
+
+/-- **An `in` that is no mapping** (`in: ab`, `in: 5`): `set_step_input_context` itself fails - `len()` of
+    a number is a TypeError, `dict.update` of a string a ValueError - **before anything else and outside
+    every decorator**: whatever `run` / `skip` / `swallow` / `retry` / `foreach` / `while` / `onError` /
+    `description` the step declares, whatever its module is, the step ends with that error in the state it
+    was entered in, only the exception counter moved: the body did not run, nothing was recorded in
+    `runErrors`, nothing swallowed, nothing retried, nothing slept. -/
+theorem in_not_a_mapping_escapes (d : StepDef) (body : Body) (callee : CofCfg → Body) (fuel : Nat) (s : St)
+    (v : Val) (hb : d.inBad = some v) :
+    ∃ x, inFault d = some x ∧ (x.name = "ValueError" ∨ x.name = "TypeError") ∧
+      runStepDescribed d body callee fuel s =
+        ({ s with nextExc := s.nextExc + 1 }, .err ⟨s.nextExc, x.name, x.msg⟩ false) ∧
+      runErrorsOf (runStepDescribed d body callee fuel s).1 = runErrorsOf s ∧
+      (runStepDescribed d body callee fuel s).1.trace = s.trace ∧
+      (runStepDescribed d body callee fuel s).1.sleeps = s.sleeps ∧
+      (runStepDescribed d body callee fuel s).1.ctx = s.ctx := by
+  have hx : ∃ x, inFault d = some x ∧ (x.name = "ValueError" ∨ x.name = "TypeError") := by
+    unfold inFault; rw [hb]; cases v <;> simp
+  obtain ⟨x, hx1, hx2⟩ := hx
+  have hrun : runStepDescribed d body callee fuel s =
+      ({ s with nextExc := s.nextExc + 1 }, .err ⟨s.nextExc, x.name, x.msg⟩ false) := by
+    unfold runStepDescribed; rw [hx1]
+    simp only [raiseExc, raiseNew]
+    rcases hx2 with h | h <;> simp [h]
+  exact ⟨x, hx1, hx2, hrun, by rw [hrun]; rfl, by rw [hrun], by rw [hrun], by rw [hrun]⟩
+
+/-- a well-formed `in` (a mapping, null, or nothing): `set_step_input_context` does not fail. -/
+theorem in_mapping_never_faults (d : StepDef) (h : d.inBad = none) : inFault d = none := by
+  unfold inFault; rw [h]
 
 /-- what is raised up front does not depend on `run` / `skip` / `swallow` at all. -/
 theorem describe_ignores_conditionals (d : StepDef) (r k w : Val) (s : St) :
